@@ -47,6 +47,9 @@ type Ctx struct {
 	// statistics for evidence
 	FuncsWalked map[string]bool
 	PathsWalked int
+	// the largest single walk (paths, rule:entry): how far the run was from the per-entry path cap
+	MaxEntryPaths int
+	MaxEntryName  string
 	Notes       []string
 	// caches shared between rules
 	cache map[string]interface{}
@@ -99,6 +102,9 @@ func (c *Ctx) Walk(rule string, cfg *core.Config, e core.Entry, onPath func(*cor
 	c.FuncsWalked[name] = true
 	n, err := core.Walk(c.Prog, cfg, e, onPath)
 	c.PathsWalked += n
+	if n > c.MaxEntryPaths {
+		c.MaxEntryPaths, c.MaxEntryName = n, rule+":"+name
+	}
 	if err != nil {
 		pos := token.NoPos
 		if e.Decl != nil {
